@@ -27,6 +27,8 @@ import (
 	"fmt"
 	"os"
 	"path/filepath"
+	"runtime/debug"
+	"runtime/pprof"
 	"sort"
 	"strconv"
 	"strings"
@@ -619,8 +621,8 @@ func write(b database.Bucket, p []int, op string, k, v int) string {
 
 // seed builds the initial committed tree of a behaviour (KV.tla Init) with two
 // managed transactions; between them the database is closed and reopened in the
-// "never"/"size" variants so that part of the data sits in leveldb and the
-// rest in the write cache.
+// "size" and "+reopen" variants so that part of the data sits in leveldb and the
+// rest in the write cache ("never": all of it in the cache, "always": all in leveldb).
 func (e *env) seed(exp tree, paths [][]int) error {
 	for part := 0; part < 2; part++ {
 		err := e.db.Update(func(tx database.Tx) error {
@@ -660,7 +662,7 @@ func (e *env) seed(exp tree, paths [][]int) error {
 		if err != nil {
 			return err
 		}
-		if part == 0 && e.v.cache != "always" {
+		if part == 0 && (e.v.cache == "size" || e.v.reopen) {
 			if err := e.db.Close(); err != nil {
 				return err
 			}
@@ -890,6 +892,19 @@ func closedTxRules(tx database.Tx, after string) *failure {
 
 // ---------------------------------------------------------------------------
 
+var (
+	cacheMu  sync.Mutex
+	cacheMax = map[string]int{} // largest write cache seen per cache variant
+)
+
+func noteCache(variant string, n int) {
+	cacheMu.Lock()
+	if n > cacheMax[variant] {
+		cacheMax[variant] = n
+	}
+	cacheMu.Unlock()
+}
+
 type recorder struct {
 	mu  sync.Mutex
 	enc *json.Encoder
@@ -981,6 +996,12 @@ func runOne(b rep.Behaviour, v variant, dir string, recd *recorder) (fl *failure
 			if f := check(""); f != nil {
 				return f, i
 			}
+			// is the cache knob effective?  "always": nothing may stay in the write cache
+			ck, cr := ffldb.VerifCacheLen(e.db)
+			noteCache(v.cache, ck+cr)
+			if v.cache == "always" && ck+cr != 0 {
+				return &failure{"C16:harness", fmt.Sprintf("variant always: %d keys stayed in the write cache", ck+cr)}, i
+			}
 			if v.reopen && len(e.txs) == 0 {
 				if err := e.db.Close(); err != nil {
 					return &failure{"C16:result:Close", "Close: " + err.Error()}, i
@@ -1014,6 +1035,14 @@ func main() {
 	if len(os.Args) < 7 || os.Args[1] != "replay" {
 		fmt.Fprintln(os.Stderr, "usage: ffldbkv replay <behaviours.jsonl> <workdir> <nk> <nb> <variants> [record.ndjson]")
 		os.Exit(3)
+	}
+	// every run opens databases (4 MiB leveldb buffers each) and leaves cursors to
+	// their finalizers: collect early to keep the driver's footprint small
+	debug.SetGCPercent(25)
+	if pf := os.Getenv("VERIF_PPROF"); pf != "" {
+		f, _ := os.Create(pf)
+		pprof.StartCPUProfile(f)
+		defer pprof.StopCPUProfile()
 	}
 	behs := rep.ReadBehaviours(os.Args[2])
 	work := os.Args[3]
@@ -1105,7 +1134,8 @@ func main() {
 		}
 		sample = map[string]interface{}{"behaviour": acts, "committed": sb[len(sb)-1]["db"]}
 	}
-	extra := map[string]interface{}{"runs": runs, "steps": steps, "agree": agree, "mode": "replay", "variants": os.Args[6], "ok_per_variant": perVariant}
+	extra := map[string]interface{}{"runs": runs, "steps": steps, "agree": agree, "mode": "replay", "variants": os.Args[6], "ok_per_variant": perVariant,
+		"max_cached_keys_per_variant": cacheMax}
 	if recd != nil {
 		extra["events"] = recd.n
 	}
